@@ -124,3 +124,17 @@ pub unsafe fn mm_packus_epi32(a: __m128i, b: __m128i) -> __m128i {
     ];
     transmute(r)
 }
+
+/// PSUBB: lane-wise wrapping subtraction (Kani's `simd_sub` flags the wrap-around that the
+/// instruction defines as its result).
+pub unsafe fn mm_sub_epi8(a: __m128i, b: __m128i) -> __m128i {
+    let x: [u8; 16] = transmute(a);
+    let y: [u8; 16] = transmute(b);
+    let mut r = [0u8; 16];
+    let mut i = 0;
+    while i < 16 {
+        r[i] = x[i].wrapping_sub(y[i]);
+        i += 1;
+    }
+    transmute(r)
+}
